@@ -51,7 +51,7 @@ def C(hosts, known0, sessions=(1,), ignored=(), events=2, env=()):
 def configs(pid, quick):
     if pid == "C25":
         if quick:
-            return [("2hosts", C({2, 3}, {2}, events=2, env={"fail", "status", "mode", "topo"}))]
+            return [("2hosts", C({2, 3}, {2}, events=2, env={"fail", "mode", "topo"}))]      # status events: recorded runs, thorough tier
         return [("1host", C({2}, {2}, events=3, env={"fail", "status", "mode", "auth"})),
                 ("topology", C({2, 3}, {2}, events=3, env={"topo", "mode", "fail"})),
                 ("2sessions", C({2}, {2}, sessions={1, 2}, events=2, env={"fail", "status", "mode"})),
@@ -226,15 +226,15 @@ def run(ctx, pid):
 
     # ---- 2./3. TLC jobs: as-built graphs first (the replay waits for them), then the rest; a few JVMs at a time
     cfgs = configs(pid, quick)
-    deadline = ctx.t0 + (48.0 if quick else 510.0)          # the replay stops early enough to finish around here
+    deadline = ctx.t0 + (50.0 if quick else 510.0)          # the replay stops early enough to finish around here
     jobs = {}
     pool = cf.ThreadPoolExecutor(max_workers=3)
     workers = 4 if quick else 5
     for name, c in cfgs:
         cb = dict(c, Fixed=fixed_built)
         p = tlc.write_cfg(os.path.join(ctx.scratch, "built_%s.cfg" % name), constants=cb, invariants=built_inv, deadlock=False)
-        jobs["built", name] = pool.submit(tlc.state_graph, "Hosts", p, ctx.scratch, coverage=(name == cfgs[0][0]),
-                                          timeout=1500, workers=workers)
+        jobs["built", name] = pool.submit(tlc.state_graph, "Hosts", p, ctx.scratch,
+                                          coverage=(name == cfgs[0][0] and (quick or not present)), timeout=1500, workers=workers)
         time.sleep(0.02)                 # state_graph names its dump after the clock
 
     # ---- 4a. meanwhile: record random runs of the real objects
@@ -262,11 +262,15 @@ def run(ctx, pid):
     wc = dict(C({2}, {2}, events=2, env={"fail", "mode"}), Fixed=set(ALL_DEV))
     p = tlc.write_cfg(os.path.join(ctx.scratch, "witness.cfg"), constants=wc, invariants=WITNESSES[pid], deadlock=False)
     jobs["witness"] = pool.submit(tlc.run_tlc, "Hosts", p, ctx.scratch, timeout=900, workers=2, extra=["-continue"])
-    if present:                          # otherwise the as-built model is the intended one
+    if present and quick:
+        ctx.note("intended_model", "quick tier: invariants %s are broken by the deviations reported above and are model-checked "
+                 "on the intended model in the thorough tier only; every other invariant is checked on the as-built model" % sorted(broken))
+    if present and not quick:            # without deviations the as-built model is the intended one
         for name, c in cfgs:
             ci = dict(c, Fixed=set(ALL_DEV))
             p = tlc.write_cfg(os.path.join(ctx.scratch, "intended_%s.cfg" % name), constants=ci, invariants=ALL_INV, deadlock=False)
-            jobs["intended", name] = pool.submit(tlc.check_model, "Hosts", p, ctx.scratch, timeout=1500, workers=workers)
+            jobs["intended", name] = pool.submit(tlc.check_model, "Hosts", p, ctx.scratch, coverage=(name == cfgs[0][0]),
+                                                 timeout=1500, workers=workers)
     for name, c in intended_only(pid, quick):
         ci = dict(c, Fixed=set(ALL_DEV))
         p = tlc.write_cfg(os.path.join(ctx.scratch, "intended_%s.cfg" % name), constants=ci, invariants=ALL_INV, deadlock=False)
@@ -292,18 +296,8 @@ def run(ctx, pid):
             spec_violation(res, "as built, %s" % name)
             continue
         consts = dict(c, Fixed=fixed_built)
-        if gi == 0:
-            cov = res.coverage()
-            expect = {"ExecAny", "FireAny", "ShutdownA", "ShutdownS", "ShutdownE", "Request", "SetMode"}
-            expect |= {"ConnFailure"} if "fail" in c["Env"] else set()
-            expect |= {"StatusEvent"} if "status" in c["Env"] else set()
-            expect |= {"TopologyEvent"} if "topo" in c["Env"] else set()
-            expect |= {"CtlFail"} if "ctl" in c["Env"] else set()
-            zero = sorted(a for a in expect if a in cov and cov[a][1] == 0)
-            missing = sorted(a for a in expect if a not in cov)
-            if zero or missing:
-                raise tlc.MachineryError("actions never taken in the exhaustive model: %s (not reported: %s)" % (zero, missing))
-            ctx.note("coverage_actions_taken", sorted(expect))
+        if gi == 0 and (quick or not present):
+            _check_coverage(ctx, res, c)
         t0 = time.time()
         walks = cover_walks(nodes, edges, init, ctx.rng, extra_random=50 if quick else 300)
         all_edges = set((s, d) for s, d, _ in edges)
@@ -351,6 +345,8 @@ def run(ctx, pid):
         if key[0] == "intended":
             res = fut.result()
             ctx.add_tlc(res, "intended %s" % key[1])
+            if key[1] == cfgs[0][0] and not res.violation and not quick:
+                _check_coverage(ctx, res, cfgs[0][1])
             if res.violation:
                 spec_violation(res, "intended, %s" % key[1])
     wres = jobs["witness"].result()
@@ -414,6 +410,21 @@ def run(ctx, pid):
         "SimConnection/FakeNode reproduce the reactors' contract; SimExecutor/SimScheduler the pool's and scheduler's",
         "small scope: <= 2 subject hosts, <= 2 sessions, <= 3 environment events exhaustively (6 in recorded runs)",
     ]
+
+
+def _check_coverage(ctx, res, c):
+    """Vacuity: every action the configuration allows is taken somewhere in the exhaustive run."""
+    cov = res.coverage()
+    expect = {"ExecAny", "FireAny", "ShutdownA", "ShutdownS", "ShutdownE", "Request", "SetMode"}
+    expect |= {"ConnFailure"} if "fail" in c["Env"] else set()
+    expect |= {"StatusEvent"} if "status" in c["Env"] else set()
+    expect |= {"TopologyEvent"} if "topo" in c["Env"] else set()
+    expect |= {"CtlFail"} if "ctl" in c["Env"] else set()
+    zero = sorted(a for a in expect if a in cov and cov[a][1] == 0)
+    missing = sorted(a for a in expect if a not in cov)
+    if zero or missing:
+        raise tlc.MachineryError("actions never taken in the exhaustive model: %s (not reported: %s)" % (zero, missing))
+    ctx.note("coverage_actions_taken", sorted(expect))
 
 
 _SEEN = {}
